@@ -122,3 +122,25 @@ def close(a, b, rtol=1e-10, atol=1e-12):
     if isinstance(a, (int, float)) and isinstance(b, (int, float)):
         return abs(a - b) <= atol + rtol * max(abs(a), abs(b))
     return a == b
+
+
+# ----------------------------------------------------------------------------- small space-magnitude setups
+def grid_setup(n_cells, n_mags, dh=0.1):
+    """Region of n_cells cells in a 2-column layout (row-major) and n_mags unit-wide magnitude bins from 5.0."""
+    ncol = 2 if n_cells > 1 else 1
+    origins = [(round(dh * (i % ncol), 10), round(dh * (i // ncol), 10)) for i in range(n_cells)]
+    mags = [5.0 + k for k in range(n_mags)]
+    reg = cartesian_region(origins, dh, magnitudes=mags)
+    return reg, origins, mags
+
+
+def events_from_counts(counts, origins, mags, dh=0.1, t0=1262304000000):
+    """counts[cell][magbin] -> event tuples at cell centres / bin midpoints (id, ms, lat, lon, depth, mag)."""
+    evs = []
+    i = 0
+    for c, row in enumerate(counts):
+        for k, n in enumerate(row):
+            for _ in range(int(n)):
+                evs.append((f'e{i}', t0 + 1000 * i, origins[c][1] + dh / 2, origins[c][0] + dh / 2, 10.0, mags[k] + 0.5))
+                i += 1
+    return evs
